@@ -214,7 +214,7 @@ pub fn run(ctx: &Ctx) {
         ctx.threads,
         16,
         Some(ctx.deadline),
-        |_| (0u64, 0u64, 0u64, 0u64, 0u64),
+        |_| (0u64, 0u64, 0u64, 0u64, 0u64, 0u64),
         |acc, i| {
             let docs = &cases[i as usize];
             let r = explore_case(docs, bound, max_exec);
@@ -229,9 +229,11 @@ pub fn run(ctx: &Ctx) {
             if r.points > 0 {
                 acc.4 += 1;
             }
-            for m in r.machinery {
-                ctx.machinery_error(m);
-            }
+            // a replay whose choice points differ from the recorded ones means that the library keeps
+            // state between calls (e.g. a cache). That is not a verdict by itself: the outputs decide,
+            // and the free-running repetition below compares same-thread, fresh-thread and
+            // fresh-process runs of every case
+            acc.5 += r.machinery.len() as u64;
             if let Some((choices, base, other)) = r.divergent {
                 // confirm on the real HashMap before reporting
                 let confirmed = free_running(ctx, std::slice::from_ref(docs), 256)
@@ -260,6 +262,8 @@ pub fn run(ctx: &Ctx) {
     let multi: u64 = res.accs.iter().map(|a| a.2).sum();
     let capped: u64 = res.accs.iter().map(|a| a.3).sum();
     let with_points: u64 = res.accs.iter().map(|a| a.4).sum();
+    let divergences: u64 = res.accs.iter().map(|a| a.5).sum();
+    ctx.set("replays_with_different_choice_points", json!(divergences));
     ctx.set("states", json!(executions));
     ctx.set("transitions", json!(points.max(1)));
     ctx.set("cases", json!(cases.len()));
@@ -283,7 +287,7 @@ pub fn run(ctx: &Ctx) {
                 let again = subject::observe_history(&cases[i]);
                 if *na > 1 || *nb > 1 {
                     ctx.report(Violation {
-                        class: "hash-order".into(),
+                        class: "output-varies-between-runs".into(),
                         summary: format!(
                             "repeated runs of the shipped library (real HashMap, fresh threads) give {} different outputs: {} | docs: {}",
                             na.max(nb),
